@@ -649,7 +649,11 @@ where
             //= https://www.rfc-editor.org/rfc/rfc9114#section-6.2.3
             //# They MAY also be
             //# sent on connections where no data is currently being transferred.
-            ready!(self.poll_grease_stream(cx));
+            //
+            // A frame has already been taken out of the control stream at this point:
+            // returning `Pending` here would drop it. The grease stream is only padding,
+            // it is polled again together with the next control frame.
+            let _ = self.poll_grease_stream(cx);
         }
 
         Poll::Ready(Ok(res))
